@@ -52,8 +52,9 @@ K13_SIG = "unmatchedSuppression located in a header is missing when the units in
 def _header_unmatched_lost(oa, ob, units, n_written):
     """Known finding K13: an unmatched inline suppression inside a header is only reported by a run that re-analyses a unit
     including the header (the report is not stored in any cache file, and a cached unit does not mark suppressions as checked).
-    True iff some unit was served from the cache and every difference is such a report missing on the cached side."""
-    if oa or not ob or n_written >= len(units):
+    True iff every difference is such a report missing on the cached side. (Which units were cache hits cannot be told from
+    the op trace here: appending the units' own unmatchedSuppression reports rewrites their cache files as well.)"""
+    if oa or not ob:
         return False
     return all(f.id == "unmatchedSuppression" and f.primary_file() not in units and f.primary_file().endswith(".h") for f, _c in ob)
 
